@@ -149,7 +149,11 @@ func WorkerMain(prop, tier string, i, n int, out string, deadlineUnix int64, max
 		res.LastRun = run
 		if logRuns {
 			// determinism self-test: one line per run, a pure function of seed and code
-			fmt.Printf("RUN %d sc=%016x obs=%016x perm=%016x yields=%d v=%v\n", run, sc.Hash(), env.Digest(), env.PermLog(), env.Yields(), v != nil)
+			var sh uint64
+			for _, h := range setToList(st.Schedules) {
+				sh = HashU64(sh, h)
+			}
+			fmt.Printf("RUN %d sc=%016x obs=%016x perm=%016x yields=%d allyields=%d switches=%d sched=%016x states=%d v=%v\n", run, sc.Hash(), env.Digest(), env.PermLog(), env.Yields(), st.Yields, st.Switches, sh, len(st.States), v != nil)
 		}
 		if len(st.Samples) < 3 {
 			st.Samples = append(st.Samples, map[string]interface{}{"run": run, "seed": sc.Seed, "scenario": sc.Readable()})
